@@ -25,7 +25,8 @@ def views_consistent(bdd):
         ok = ok and dict(bdd.var_levels) == dict(bdd.vars)
         for nm, lv in bdd.vars.items():
             ok = ok and bdd.var_at_level(lv) == nm and bdd.level_of_var(nm) == lv
-        ok = ok and len(bdd._level_to_var) == L
+        if hasattr(bdd, '_level_to_var'):
+            ok = ok and len(bdd._level_to_var) == L
         return ok
     except Exception:
         return False
@@ -35,11 +36,13 @@ class Harness:
     name = 'K10.add_var'
     mode = 'U'
 
-    def __init__(self, N=4, L=2):
+    def __init__(self, N=4, L=2, via=None):
         self.N, self.L = N, L
+        self.via = via or ['bdd']
 
     def install(self):
         self.B = base.import_dd('dd.bdd')
+        self.A = base.import_dd('dd.autoref')
         self.sh = base.Shadow()
         base.std_shadows(self.sh, self.B)
 
@@ -74,25 +77,31 @@ class Harness:
         c.assume(z3.And(lvl >= 0, lvl <= L + 2))
         which = c.choose(L, 'which') if kind.startswith('existing') else 0
         vars0 = dict(bdd.vars)
+        via = self.via[c.choose(len(self.via), 'via')] if len(self.via) > 1 else self.via[0]
+        T = bdd
+        if via == 'autoref':
+            T = self.A.BDD.__new__(self.A.BDD)      # as autoref.BDD.__init__ builds it
+            T._bdd = bdd
+            T.vars = bdd.vars
 
         def extract(model):
             case = m.extract(model)
-            case['args'] = dict(kind=kind, lvl=base.ev_int(model, lvl), which=which)
+            case['args'] = dict(kind=kind, lvl=base.ev_int(model, lvl), which=which, via=via)
             case['harness'] = 'k10_addvar'
             return case
 
         exc = ret = None
         try:
             if kind == 'new':
-                ret = bdd.add_var('znew')
+                ret = T.add_var('znew')
             elif kind == 'new_level':
-                ret = bdd.add_var('znew', SymInt(lvl))
+                ret = T.add_var('znew', SymInt(lvl))
             elif kind == 'existing':
-                ret = bdd.add_var(names[which])
+                ret = T.add_var(names[which])
             elif kind == 'existing_level':
-                ret = bdd.add_var(names[which], SymInt(lvl))
+                ret = T.add_var(names[which], SymInt(lvl))
             else:
-                bdd.declare(names[0], 'znew', names[-1], 'znew')
+                T.declare(names[0], 'znew', names[-1], 'znew')
                 ret = L
         except ValueError as e:
             exc = e
@@ -120,13 +129,15 @@ class Harness:
                               legit if isinstance(exc, ValueError) else z3.BoolVal(False)))
             goals.append(Goal('refusal_leaves_manager',
                               z3.And(state_equal(st0, st, m.ids),
-                                     z3.BoolVal(dict(bdd.vars) == vars0 and views_consistent(bdd)))))
+                                     z3.BoolVal(dict(bdd.vars) == vars0 and views_consistent(bdd)
+                                                and dict(T.vars) == vars0 and views_consistent(T)))))
             res = base.discharge(goals, [], extract)
             return dict(outcome='refused', goals=res, witness=base.witness(extract),
                         expect=dict(outcome='raised:' + type(exc).__name__))
         added = 'znew' in bdd.vars
         L2 = L + 1 if added else L
-        goals.append(Goal('views_consistent', z3.BoolVal(views_consistent(bdd))))
+        goals.append(Goal('views_consistent', z3.BoolVal(
+            views_consistent(bdd) and views_consistent(T) and dict(T.vars) == dict(bdd.vars))))
         goals.append(Goal('old_names_keep_levels',
                           z3.BoolVal(all(bdd.vars.get(n) == vars0[n] for n in vars0))))
         if kind in ('new', 'new_level', 'declare_mixed'):
@@ -214,22 +225,28 @@ def replay(case):
     vars0 = dict(bdd.vars)
     before = concrete.snapshot(bdd)
     tts = {k: concrete.tt_named(bdd, k, names) for k in bdd._succ}
+    T = bdd
+    if a.get('via') == 'autoref':
+        import dd.autoref as A
+        T = A.BDD.__new__(A.BDD)
+        T._bdd = bdd
+        T.vars = bdd.vars
     exc = ret = None
     try:
         if kind == 'new':
-            ret = bdd.add_var('znew')
+            ret = T.add_var('znew')
         elif kind == 'new_level':
-            ret = bdd.add_var('znew', lvl)
+            ret = T.add_var('znew', lvl)
         elif kind == 'existing':
-            ret = bdd.add_var(names[which])
+            ret = T.add_var(names[which])
         elif kind == 'existing_level':
-            ret = bdd.add_var(names[which], lvl)
+            ret = T.add_var(names[which], lvl)
         else:
-            bdd.declare(names[0], 'znew', names[-1], 'znew')
+            T.declare(names[0], 'znew', names[-1], 'znew')
             ret = L
     except Exception as e:
         exc = e
-    call = f'add_var[{kind}](level={lvl}, which={which})'
+    call = f'add_var[{kind}](level={lvl}, which={which})' + (' via dd.autoref' if T is not bdd else '')
     obs = dict(outcome='raised:' + type(exc).__name__ if exc else 'returned', vars=dict(bdd.vars))
     if exc is not None:
         legit = (kind == 'new_level' and lvl != L) or (kind == 'existing_level' and lvl != which)
@@ -248,6 +265,9 @@ def replay(case):
                     detail=f'{call} accepted a conflicting level, vars now {bdd.vars}', observed=obs)
     if not views_consistent(bdd):
         return dict(violates=True, key='add_var/views', detail=f'{call}: vars {bdd.vars} l2v {bdd._level_to_var}', observed=obs)
+    if T is not bdd and (not views_consistent(T) or dict(T.vars) != dict(bdd.vars)):
+        return dict(violates=True, key='add_var/autoref-views',
+                    detail=f'{call} through dd.autoref: wrapper vars {dict(T.vars)}, manager {dict(bdd.vars)}', observed=obs)
     for n in vars0:
         if bdd.vars.get(n) != vars0[n]:
             return dict(violates=True, key='add_var/moves-old-variable', detail=f'{call}: {bdd.vars}', observed=obs)
